@@ -1259,6 +1259,8 @@ class Interp:
                     return MethV(v, attr)  # the object seen through its __dict__
                 self.log("attr.missing", node, obj=v, attr=attr, cls=o.cls)
                 return Sym(("attr", ("ref", v.oid), attr))
+            if isinstance(o, HWcnf) and attr in ("hard", "soft") and not getattr(o, attr):
+                return self.alloc(HList())  # (a WCNF without such clauses: the attribute is an empty list)
             r = M.obj_getattr(self, v, o, attr, node)
             if r is not None:
                 return r
